@@ -20,7 +20,7 @@ Proof.
   - eapply inv_accept_ok; eauto.
   - eapply inv_accept_fail; eauto.
   - eapply inv_handshake_fail; eauto.
-  - eapply inv_admit; eauto.
+  - eapply inv_enter; eauto.
   - eapply inv_reject; eauto.
   - eapply inv_finish; eauto.
 Qed.
@@ -112,9 +112,9 @@ Proof.
   - apply in_set_conn in H. destruct H as (c1 & Hc1 & ->). destruct (Nat.eqb (ct_id c1) id) eqn:E1; [reflexivity|apply Nat.eqb_neq in E1; cbn in *; congruence].
 Qed.
 
-(* an executable schedule: Start, two clients (one plain admitted, one TLS whose handshake fails), Stop *)
+(* an executable schedule: Start, two clients (one plain let_in, one TLS whose handshake fails), Stop *)
 Example lifecycle_ex :
-  let ls := [LStartBegin; LStartOpen; LStartSpawnPlain; LStartSpawnTLS; LAcceptOk 0; LAcceptOk 1; LAdmit 2; LHandshakeFail 3;
+  let ls := [LStartBegin; LStartOpen; LStartSpawnPlain; LStartSpawnTLS; LAcceptOk 0; LAcceptOk 1; LEnter 2; LHandshakeFail 3;
              LStopBegin; LStopCloseLis; LAcceptFail 0; LAcceptFail 1; LStopWaitAccept; LStopCloseReg; LStopCloseConns; LFinish 2; LStopWaitConns] in
   let s := lrun (init true true) ls in
   pc s = PStopped /\ registry s = [] /\ open_lis s = [] /\ conn_wg s = 0 /\ accept_wg s = 0 /\ length (conns s) = 2.
@@ -144,12 +144,12 @@ Definition life_op (st : sys * list nat) (o : lop) : (sys * list nat) * lobs :=
   | ORestart => let s1 := if is_running s then do_stop s else s in let s' := do_start s1 in ((s', []), ObsRet (is_running s'))
   | OPlain =>
     match is_running s, fld_plain s with
-    | true, Some l => let id := next_id s in let s' := lrun s [LAcceptOk l; LAdmit id] in ((s', clients ++ [id]), ObsReg (length (registry s')))
+    | true, Some l => let id := next_id s in let s' := lrun s [LAcceptOk l; LEnter id] in ((s', clients ++ [id]), ObsReg (length (registry s')))
     | _, _ => (st, ObsSkip)
     end
   | OTLS =>
     match is_running s, fld_tls s with
-    | true, Some l => let id := next_id s in let s' := lrun s [LAcceptOk l; LAdmit id] in ((s', clients ++ [id]), ObsReg (length (registry s')))
+    | true, Some l => let id := next_id s in let s' := lrun s [LAcceptOk l; LEnter id] in ((s', clients ++ [id]), ObsReg (length (registry s')))
     | _, _ => (st, ObsSkip)
     end
   | OReject =>      (* a TLS client whose certificate the authenticators refuse: accepted, then released without registration *)
